@@ -9,6 +9,9 @@ use consts::{HADDR_SPENDER_INDEX, HADDR_SPENDER_TX};
 // pub use executor::*;
 
 use executor::Executor;
+/// Verification hook H1 (observation only): lets an external harness single-step the interpreter.
+#[cfg(melstf_verif)]
+pub use executor::Executor as VerifExecutor;
 use opcode::{opcodes_weight, DecodeError, OpCode};
 use serde::{Deserialize, Serialize};
 use melstructs::{Address, CoinDataHeight, CoinID, Header, Transaction};
